@@ -135,8 +135,13 @@ def reseed_global(seed):
 _NONASCII = ["ключ", "鍵", "clé", "schlüssel", "🔑"]
 
 
+SURROGATE_OK = False  # set by a scenario whose hash strategy works on code points (library default FNV-1a)
+
+
 def key_of(k, ascii_only=False):
     """Key universe: index -> str (ASCII / non-ASCII) or bytes."""
+    if k == 11 and SURROGATE_OK and not ascii_only:
+        return "undecodable-\udc80\udcff"  # what os.fsdecode gives for a non-UTF-8 file name: valid str, not encodable
     if k == 1:
         return ""  # the empty text key and (k == 6) the empty bytes key are keys like any other
     if k == 6:
@@ -210,9 +215,11 @@ def make_single_hash(kind, seed=0, bits=64):
     salt = seed.to_bytes(8, "little")
     mask = (1 << bits) - 1
 
+    nbytes = 16 if bits > 64 else 8
+
     def h1(key, s=0):
         v = int.from_bytes(
-            hashlib.blake2b(kbytes(key), digest_size=8, key=salt, salt=int(s).to_bytes(8, "little")).digest(), "little"
+            hashlib.blake2b(kbytes(key), digest_size=nbytes, key=salt, salt=int(s).to_bytes(8, "little")).digest(), "little"
         )
         return v & mask
 
@@ -250,6 +257,19 @@ class SimFile(io.RawIOBase):
 
 
 # --------------------------------------------------------------------------- S3-S5
+
+
+class FsPath:
+    """A path-like object that is neither str nor pathlib.Path (os.PathLike protocol only)."""
+
+    def __init__(self, p):
+        self._p = p
+
+    def __fspath__(self):
+        return self._p
+
+    def __repr__(self):
+        return f"FsPath({self._p!r})"
 
 
 class Scratch:
@@ -299,6 +319,8 @@ class Scratch:
             if not os.path.lexists(dl):
                 os.symlink(self.dir("a/sub"), dl)
             return os.path.join(dl, "..", "..", d, name)
+        if style == "fspath":
+            return FsPath(ab)
         if style == "dirlinkpath":
             from pathlib import Path
 
